@@ -93,6 +93,24 @@ def flatten_case(ctx, shape, group, form='tuple', insert=None, reverse=False, lk
     return ctx.done(ctx.AND(*oks), [ctx.observe(res), ctx.observe(u[1])])
 
 
+def unflatten_after_T(ctx, shape, group):
+    """flatten a subset into a 2-D array, transpose it, then unflatten / reshape: memory layout must not matter"""
+    a, ref, attrs = _build(ctx, shape)
+    dims = list(ref.dims)
+    names = tuple(dims[i] for i in group)
+    b = a.flatten(names, insert=1 if len(shape) - len(group) == 1 else 0)
+    r = ctx.call(lambda: b.T.unflatten())
+    if r[0] != 'ok':
+        return ctx.done(False, r[1])
+    ud = list(r[1].dims)
+    if sorted(ud) != sorted(dims):
+        return ctx.done(False, ctx.observe(r[1]))
+    ok = same(ctx, r[1], ref.transpose([dims.index(d) for d in ud]), attrs=attrs)
+    r2 = ctx.call(lambda: b.T.reshape(dims))
+    ok2 = r2[0] == 'ok' and same(ctx, r2[1], ref)
+    return ctx.done(ctx.AND(ok, ok2), ctx.observe(r[1]))
+
+
 def reshape_case(ctx, shape, target, lkinds=None, transpose=True):
     """target: list of entries; each entry is a list of dim indices (grouped when more than one) or the str 'NEW'"""
     a, ref, attrs = _build(ctx, shape, lkinds=lkinds)
@@ -205,6 +223,8 @@ def templates():
     ]
     for k, (sh, target) in enumerate(R):
         add('reshape-%d-%s' % (k, 'x'.join(map(str, sh))), 'reshape_case', cost=0.3, shape=sh, target=target)
+    for sh, group in (([2, 3, 2], [1, 2]), ([2, 3, 2], [0, 1]), ([3, 2, 2], [2, 1]), ([2, 3], [0, 1])):
+        add('unflatten-after-T-%s-g%s' % ('x'.join(map(str, sh)), ''.join(map(str, group))), 'unflatten_after_T', cost=0.3, shape=sh, group=group)
     add('reshape-notranspose-ok', 'reshape_case', cost=0.3, shape=[2, 3, 2], target=[[0, 1], [2]], transpose=False)
     add('reshape-notranspose-refused', 'reshape_case', cost=0.3, shape=[2, 3, 2], target=[[1, 0], [2]], transpose=False)
     add('reshape-mixed-kinds', 'reshape_case', cost=0.3, shape=[2, 2], target=[[1, 0]], lkinds=['i', 'U'])
